@@ -31,7 +31,7 @@ use crate::{
 // ---------------------------------------------------------------------------------------------------------------
 // (a) op histories, Ristretto (the instantiation that owns the process-wide cells)
 
-pub const OPS: [&str; 21] = [
+pub const OPS: [&str; 22] = [
     "params(2,1)",
     "params(2,2)",
     "params(4,1)",
@@ -53,6 +53,7 @@ pub const OPS: [&str; 21] = [
     "prove-refused-promise",
     "batch-mixed-sizes-two-defects",
     "batch-inconsistent-bit-lengths",
+    "verify-valid-under-other-context",
 ];
 
 fn digest(parts: &[&[u8]]) -> Vec<u8> {
@@ -220,6 +221,14 @@ fn run_op<P: G>(op: &str, kept: &mut Vec<RangeParameters<P>>) -> Vec<u8> {
                 Ok(p) => [b"PROOF:".to_vec(), P::to_bytes(&p)].concat(),
                 Err(e) => format!("ERR:{}", crate::api::err_name(&e)).into_bytes(),
             }
+        },
+        "verify-valid-under-other-context" => {
+            // the pair of "verify-valid", presented under a transcript it was not made under: an error, whatever was verified
+            // before it
+            let wit = Wit::default_for(&cfg_b);
+            let built = build::<P>(&cfg_b, &wit).honest();
+            let proof = lib_prove_honest(&built, &CTX_A, &mut HRng::chacha(2));
+            verify_bytes(&[built.statement.clone()], &[proof], &[contexts()[3]], VerifyAction::VerifyOnly)
         },
         "verify-valid" | "verify-invalid" => {
             let wit = Wit::default_for(&cfg_b);
